@@ -95,6 +95,14 @@ func genC15() *rapid.Generator[c15Case] {
 func seedGarbage(ipt *nf.IPTables, sets *nf.IPSet, c *c15Case) {
 	for i := 0; i < c.Foreign; i++ {
 		sets.SeedSet(fmt.Sprintf("KUBE-SET-%d", i), ipset.HashIP, "10.9.9.9")
+		// foreign names that resemble galaxy's own naming scheme without carrying its prefix
+		for j, n := range []string{"ip-whitelist", "snet-office", "dip-0-BACKENDS", "sip", "PLCY-x", "POD-GLX", "glx-ip-lowercase"} {
+			if (i+j)%2 == 0 {
+				sets.SeedSet(n, ipset.HashIP, "10.9.9.10")
+			}
+		}
+		ipt.Seed("filter", "PLCY-FOREIGN", "-p tcp -m tcp --dport 23 -j DROP")
+		ipt.Seed("filter", "POD-FOREIGN", "-j PLCY-FOREIGN")
 		ipt.Seed("filter", fmt.Sprintf("KUBE-FW-%d", i), fmt.Sprintf("-m set --match-set KUBE-SET-%d src -j DROP", i), "-p tcp -m tcp --dport 22 -j ACCEPT")
 		ipt.Seed("filter", "FORWARD", fmt.Sprintf("-m comment --comment \"foreign %d\" -j KUBE-FW-%d", i, i))
 		ipt.Seed("filter", "INPUT", "-s 203.0.113.0/24 -j DROP")
